@@ -144,6 +144,19 @@ func c06Check(c *fw.Ctx, s string, class string, mustReject string) {
 			}
 			c.Distinct("err/" + k)
 		}
+		// a rejected input must leave nothing behind: a valid text parsed right
+		// after it is accepted as usual
+		if c.R.Chance(1, 3) {
+			var t2 geom.T
+			var err2 error
+			if c.Guard("panic", func() { t2, err2 = wkt.Unmarshal("LINESTRING Z (1 2 3, 4 5 6)") }) {
+				return
+			}
+			c.Count("valid_text_parsed_after_a_rejected_one")
+			if err2 != nil || t2 == nil || !model.BitsEq(t2.FlatCoords(), []float64{1, 2, 3, 4, 5, 6}) || t2.Layout() != geom.XYZ {
+				c.Fail("state-left-behind", "after this input was rejected, parsing LINESTRING Z (1 2 3, 4 5 6) gave %v, %v", t2, err2)
+			}
+		}
 		return
 	}
 	c.Count("accepted")
